@@ -1,10 +1,14 @@
 #!/bin/bash
 # verify a candidate seeded change and run the property's quick check against it (scratch copies only)
 # usage: process_mutation.sh <ID> <m> <demo file> <dest in repo> <cargo test args...>     env: SLOT
+# The patch is tried against /repo's HEAD first and, if it does not apply there (a later fix:
+# commit touched the same lines), against the commit the sub-agents worked from ($AGENT_BASE).
 ID=$1; M=$2; DEMO=$3; DEST=$4; shift 4
 D=/tmp/wt/out/$ID/$M
 export SLOT=${SLOT:-0}
 export WT=/tmp/wt/verify$SLOT
+AGENT_BASE=${AGENT_BASE:-c197d4d}
+if ! git -C /repo apply --check $D/patch.diff 2>/dev/null; then export BASE=$AGENT_BASE; echo "patch does not apply to HEAD; using base $BASE"; fi
 /verif/tools/verify_mutation.sh $D $D/$DEMO $DEST "$@" > /dev/null 2>&1
 tail -1 $D/verify.log
 /verif/tools/seeded.sh $D/patch.diff ${ID:0:3} quick > $D/seeded.log 2>&1
